@@ -736,6 +736,27 @@ func TestC20(t *testing.T) {
 	}
 	vcore.E.SetExtra("single_faults", fmt.Sprintf("%d single faults enumerated over %d document nodes", len(singles), len(ps)))
 
+	// coupled faults: the same value at two (or three) places that hold one and the same host in a valid document - every host
+	// string used anywhere, among them unresolvable names that are hosts by syntax; exhaustive
+	hostVals := []any{"upf.invalid", "no-such-host.invalid", "256.256.256.256", "12345", "localhost", "127.0.0.9", "not a host!", "300.1.1.1", "a b", "", "1.2.3"}
+	hostLeaves := []string{"pfcp.addr", "pfcp.nodeID", "gtpu.ifList.0.addr"}
+	for _, hv := range hostVals {
+		for mask := 3; mask < 8; mask++ {
+			if mask == 4 {
+				continue
+			}
+			c := Case{}
+			for i, lp := range hostLeaves {
+				if mask&(1<<i) != 0 {
+					c.Faults = append(c.Faults, Fault{Path: lp, Kind: "set", Value: hv, p: parsePath(lp)})
+				}
+			}
+			v := run(&c)
+			account(&c, true, "coupled_fault")
+			vcore.Report(t, v, c)
+		}
+	}
+
 	// random multi-faults
 	vcore.Check(t, vcore.N(3000, 60000), func(rt *rapid.T) {
 		n := rapid.IntRange(2, 5).Draw(rt, "n")
